@@ -61,9 +61,9 @@ MANIFEST = {
     "text": "Deductive verification of the emitted request-building code itself, per operation shape: unbounded in run-time argument values "
             "(all values, every subset of optional arguments), bounded in the enumerated spec shapes. A generator change that drops the "
             "None-guard, keys an entry by the sanitised name, or sends a body under the wrong keyword fails a named obligation of a named shape.",
-    "note": "Bounded in spec shapes (the corpus is listed in evidence). serialize and httpx are not under contract here. Multi-content-type "
-            "dispatch methods whose implementation is outside the engine's subset are listed as skipped.",
-    "technique": "contract-based deductive verification of emitted code (pyvc + z3) against an oracle contract over an enumerated shape corpus + statement contracts on the generator's parameter loops",
+    "note": "Bounded in spec shapes (the corpus is listed in evidence). The serializer's scalar / visited-set laws, the auth plugins and the bundled transport are "
+            "under contract (shared with C16 / C17); httpx itself and cattrs are dependencies. A run-time monitor drives every operation of the random documents.",
+    "technique": "contract-based deductive verification of emitted code (pyvc + z3) against an oracle contract over an enumerated shape corpus + statement contracts on the generator's parameter loops + contracts on serializer / auth plugins / transport + bounded run-time monitor",
 }
 
 
